@@ -685,6 +685,9 @@ func (s *ShapeIndex) Reset() {
 	s.nextID = 0
 	s.cellMap = make(map[CellID]*ShapeIndexCell)
 	s.cells = nil
+	// No additions or removals are pending any more, and none has been applied.
+	s.pendingAdditionsPos = 0
+	s.pendingRemovals = nil
 	atomic.StoreInt32(&s.status, fresh)
 }
 
